@@ -63,6 +63,12 @@ func (s *ScanMethod) ProcessPacketData(data []byte, _ *gopacket.CaptureInfo) err
 	if len(s.rcvDecoded) != 2 {
 		return nil
 	}
+	// only Ethernet/IPv4 ARP carries a 6-byte MAC and a 4-byte IP address
+	if s.rcvDecoded[1] != layers.LayerTypeARP ||
+		s.rcvARP.AddrType != layers.LinkTypeEthernet || s.rcvARP.Protocol != layers.EthernetTypeIPv4 ||
+		s.rcvARP.HwAddressSize != 6 || s.rcvARP.ProtAddressSize != 4 {
+		return nil
+	}
 
 	copy(s.rcvMacPrefix[:], s.rcvARP.SourceHwAddress[:3])
 	hwVendor := macs.ValidMACPrefixMap[s.rcvMacPrefix]
